@@ -317,7 +317,7 @@ type Bounds struct {
 }
 
 func DefaultBounds() Bounds {
-	return Bounds{MaxSteps: 2_000_000, MaxDecisions: 400, MaxPaths: 200_000, MaxDepth: 400, MaxCEs: 8, Samples: 4}
+	return Bounds{MaxSteps: 2_000_000, MaxDecisions: 400, MaxPaths: 200_000, MaxDepth: 400, MaxCEs: 24, Samples: 4}
 }
 
 type HarnessResult struct {
